@@ -161,6 +161,26 @@ static void case_Fa(ByteSource& in, CaseInfo& ci) {
   Out o = call_shape(api, expect.size() + 64, snsize, shape, spec, s, (mpf_srcptr)x, &nout); mpf_clear(x);
   judge_out("%Fa", api, o, expect, snsize, spec, nout, shape);
 }
+// "%.Fg" (empty precision = all significant digits): the fixed / scientific choice must follow C's rule for the number of significant digits the
+// variable carries. (a) a value with a decimal exponent far above what a 64..192-bit variable carries must come out in scientific form with the leading
+// digits right; (b) an integer or dyadic fraction far below the digit capacity of a variable of 1000..20000 bits must come out in full, in fixed form.
+static void case_Fg_alldigits(ByteSource& in, CaseInfo& ci) {
+  bool big = in.flag(); bool neg = in.flag(); std::string got; int ret; ci.label("%.Fg"); ci.nontrivial = true;
+  if (!big) { uint64_t m = in.range(1, 1u << 20) | 1; unsigned k = (unsigned)in.range(700, 1500); uint64_t prec = 64 * in.range(1, 3); Int V = ref::shl(Int::from_u64(m), k); std::string dg = ref::to_string(V, 10); long E = (long)dg.size() - 1;
+    mpf_t x; mpf_init2(x, prec); mpf_set_ui(x, m); mpf_mul_2exp(x, x, k); if (neg) mpf_neg(x, x); ci.d("%%.Fg of %s%llu*2^%u in a %llu-bit mpf", neg ? "-" : "", (unsigned long long)m, k, (unsigned long long)prec);
+    char* p = nullptr; ret = gmp_asprintf(&p, "%.Fg", x); got = p; rec_free(p, got.size() + 1); mpf_clear(x);
+    // expected form: [-]d.ddd...e+E with the first 12 digits those of V
+    std::string t = got; if (neg) { REQUIRE(!t.empty() && t[0] == '-', "%%.Fg: sign missing in \"%s\"", got.c_str()); t = t.substr(1); } size_t epos = t.find("e+"); REQUIRE(epos != std::string::npos, "%%.Fg of a value with decimal exponent %ld in a %llu-bit variable is not in scientific form: \"%.80s\"", E, (unsigned long long)prec, got.c_str());
+    REQUIRE(atol(t.c_str() + epos + 2) == E, "%%.Fg: exponent in \"%.80s\", expected %ld", got.c_str(), E); std::string md; for (size_t i = 0; i < epos; i++) if (t[i] != '.') md += t[i]; REQUIRE(md.size() >= 12 && md.compare(0, 12, dg, 0, 12) == 0 && t[1] == '.', "%%.Fg: mantissa digits in \"%.80s\" do not start with %.12s", got.c_str(), dg.c_str());
+    REQUIRE(ret == (int)got.size(), "%%.Fg: returned %d for %zu characters", ret, got.size()); }
+  else { uint64_t prec = 64 * in.range(16, 320); unsigned fk = (unsigned)in.range(0, 2); Int N = gen_int(in, 2, false); if (N.is_zero()) N = Int(7); unsigned k = fk ? (unsigned)in.range(1, 20) : 0; while (k && !N.is_odd()) N = N + Int(1);   // value N / 2^k
+    mpf_t x; mpf_init2(x, prec); mpz_t z; mpz_init(z); mpz_from_int(z, N); mpf_set_z(x, z); mpz_clear(z); if (k) mpf_div_2exp(x, x, k); if (neg) mpf_neg(x, x); ci.d("%%.Fg of %s%s/2^%u in a %llu-bit mpf", neg ? "-" : "", show(N).c_str(), k, (unsigned long long)prec);
+    // exact decimal expansion of N/2^k: integer part, then (N mod 2^k) * 5^k padded to k digits, trailing zeros stripped
+    Int ip = ref::tshr(N, k), fp = N - ref::shl(ip, k); std::string e = ref::to_string(ip, 10); if (k) { std::string fr = ref::to_string(fp * ref::pow(Int(5), k), 10); fr = std::string(k - fr.size(), '0') + fr; while (!fr.empty() && fr.back() == '0') fr.pop_back(); if (!fr.empty()) e += "." + fr; } if (neg) e = "-" + e;
+    bool tiny = ip.is_zero() && k >= 14;   // below 1e-4 C's rule chooses the scientific form: only the fixed-form cases are asserted
+    char* p = nullptr; ret = gmp_asprintf(&p, "%.Fg", x); got = p; rec_free(p, got.size() + 1); mpf_clear(x); if (tiny) { ci.label("%.Fg:tiny_not_asserted"); return; }
+    REQUIRE(got == e, "%%.Fg of a value with %zu significant digits in a %llu-bit variable: got \"%.80s\", expected \"%.80s\"", e.size(), (unsigned long long)prec, got.c_str(), e.c_str()); REQUIRE(ret == (int)got.size(), "%%.Fg: returned %d for %zu characters", ret, got.size()); }
+}
 // %Ff of integer-valued mpf numbers of many limbs held with more precision than they need: every digit of the integer is exact
 static void case_F_big(ByteSource& in, CaseInfo& ci) {
   size_t n = in.flag() ? (size_t)in.range(1, 6) : (size_t)in.range(6, 40); Limbs v = limbs_nz(in, n); if (in.chance(60)) v.assign(n, ~0ull); bool neg = in.flag(); Int N = Int::from_limbs(v.data(), n, neg);
@@ -179,6 +199,7 @@ static void case_F_big(ByteSource& in, CaseInfo& ci) {
 static void case_F(ByteSource& in, CaseInfo& ci) {
   if (in.chance(70)) { case_F_big(in, ci); return; }
   if (in.chance(50)) { case_Fa(in, ci); return; }
+  if (in.chance(40)) { case_Fg_alldigits(in, ci); return; }
   // dyadic value m/2^k whose decimal expansion is exact within the requested precision: libc prints it exactly, byte-identical output expected
   static const char cv[] = "feEgG"; Spec s = gen_spec(in, cv, false); if (s.hash) { s.hash = false; ci.label("F:hash_flag_not_asserted"); }   /* the manual does not spell out '#' for %F */
   long m = (long)in.srange(-(1 << 20), 1 << 20); if (in.chance(40)) m = 0; int k = (int)in.range(0, 10); double d = std::ldexp((double)m, -k);
@@ -250,6 +271,6 @@ static void check(ByteSource& in, CaseInfo& ci) { switch (in.pick({10, 5, 4, 4})
 namespace eng {
 PropDef g_prop = {"C18",
   "Cases: one call of a member of the gmp_printf family (sprintf, snprintf with size 0..len+1 into a buffer of exactly that many bytes, asprintf, fprintf, obstack_printf appended to an object being grown, and the five va_list forms) on a format made of flags subset of {-,+,space,#,0} x width {none,1,5,20,* positive,* negative} x precision {none,.0,.3,.25,.* (also negative),'.' alone} x conversion d,i,o,x,X for %Z (values 0,+-1,..,LONG_MIN/MAX, random longs, multi-limb), %Q, %N (negative size), %M (d,i,o,u,x,X), and e,f,g,E,G for %F, alone or embedded between standard conversions (%d %s %c %% %ld %5.2f %n). Oracle: libc snprintf with %l and the equal long value (byte-identical) wherever C gives the conversion a meaning; a layout model of C's padding/sign/prefix/precision rules, validated against libc in the same run, for signed o/x/X and values that do not fit a long; libc %l for %M; libc double output for %F on dyadic values whose expansion is exact at the requested precision; return value = full length, truncation = first size-1 bytes + NUL, asprintf block = length+1 (recording allocator), %n. Input: gmp_sscanf / gmp_fscanf read back what the output functions printed (%Zd %Zi %Zx %Zo %Qd %Qi %Ff %Fe %Fg %Fa, %n, %*Zd), C-style count, EOF and matching failure. Not asserted: '#' with precision 0 on zero, '0' flag with %Q. Non-trivial: every case. Distinct = hash of all decoded choices.",
-  check, setup, {"Z:compared_with_libc", "Z:big_value_model", "Z:signed_oxX_model", "Z:empty_precision", "%Q", "%N", "%M", "%F", "%Fa", "F:integer_valued_many_limbs", "gmp_snprintf", "gmp_asprintf", "gmp_vsnprintf", "gmp_fprintf", "gmp_obstack_printf", "gmp_sscanf", "gmp_fscanf", "gmp_vsscanf", "gmp_vfscanf", "scan:eof", "flag0_with_minus", "flag0_with_precision"}, fixed_case, sweep_count, sweep_item,
+  check, setup, {"Z:compared_with_libc", "Z:big_value_model", "Z:signed_oxX_model", "Z:empty_precision", "%Q", "%N", "%M", "%F", "%Fa", "%.Fg", "F:integer_valued_many_limbs", "gmp_snprintf", "gmp_asprintf", "gmp_vsnprintf", "gmp_fprintf", "gmp_obstack_printf", "gmp_sscanf", "gmp_fscanf", "gmp_vsscanf", "gmp_vfscanf", "scan:eof", "flag0_with_minus", "flag0_with_precision"}, fixed_case, sweep_count, sweep_item,
   "the full cross product of the 32 flag subsets of {-,+,space,#,0} x width {none,1,5,20,* = 9,* = -9} x precision {none,.0,.3,.25,.* = 4,.* = -2,'.' alone} x conversion {d,i,o,x,X} x 12 long values (0,+-1,+-7,+-123,65535,LONG_MAX,LONG_MIN,1000000007,-99999) through gmp_snprintf %Z: compared with libc where C gives the conversion a meaning, with the libc-validated layout model otherwise (80,640 format/value pairs)"};
 }
